@@ -186,9 +186,31 @@ fn boundary_string(len: usize, alphabet: u64, variant: u64) -> Vec<u8> {
                 v[7] = b'9';
             }
         }
-        _ => {
+        3 => {
             let mut r = crate::rng::Rng::new(crate::rng::mix(&[len as u64, variant, 99]));
             r.fill(&mut v);
+        }
+        _ => {
+            // "AR2" + a tape name that is valid UTF-8 with multi-byte characters at various
+            // offsets, then extreme date / time fields
+            let names: [&[u8]; 6] = [
+                b"AR2V0\xc3\xa906",
+                b"AR2V000\xc3\xa9",
+                b"AR2V00\xe2\x82\xac",
+                b"AR2\xf0\x9f\x8c\xa9\xc3\xa9",
+                b"AR2V\xc3\xa9\xc3\xa9\xc3",
+                b"AR2V0006\xc3",
+            ];
+            let pat = names[variant as usize % 6];
+            for (i, b) in v.iter_mut().enumerate() {
+                *b = if i < pat.len() { pat[i] } else { 0x30 + (i as u8 % 10) };
+            }
+            if len >= 20 {
+                let date: u32 = [95_026_237u32, 95_026_188, u32::MAX, 65_536, 0, 0x7FFF_FFFF][variant as usize % 6];
+                let time: u32 = [u32::MAX, 86_400_000, 86_399_999, 0, u32::MAX, 1][variant as usize % 6];
+                v[12..16].copy_from_slice(&date.to_be_bytes());
+                v[16..20].copy_from_slice(&time.to_be_bytes());
+            }
         }
     }
     v
@@ -207,19 +229,19 @@ impl Check for C06 {
     fn plan(&self, tier: Tier) -> Vec<Section> {
         match tier {
             Tier::Quick => vec![
-                Section { name: "boundary-lengths-0..=64-x-4-alphabets-x-6-variants", runs: 65 * 4 * 6 },
+                Section { name: "boundary-lengths-0..=64-x-5-alphabets-x-6-variants", runs: 65 * 5 * 6 },
                 Section { name: "every-truncation-of-small-volumes", runs: 300 },
                 Section { name: "damaged-objects-downloaded", runs: 12_000 },
             ],
             Tier::Thorough => vec![
-                Section { name: "boundary-lengths-0..=64-x-4-alphabets-x-6-variants", runs: 65 * 4 * 6 },
+                Section { name: "boundary-lengths-0..=64-x-5-alphabets-x-6-variants", runs: 65 * 5 * 6 },
                 Section { name: "every-truncation-of-small-volumes", runs: 12_000 },
                 Section { name: "damaged-objects-downloaded", runs: 600_000 },
             ],
         }
     }
     fn rule(&self) -> &'static str {
-        "a case is an object stored in the simulated bucket and fetched with the real download_file / download_chunk (short object, connection cut mid-body, framed body), then handed to Chunk::new, File::{new,data,header,records,scan,Debug}, Record::{new,from_slice,data,compressed,decompress,messages,Debug} and the decompressed record again. Objects: every length 0..=64 over four alphabets (zeros, AR2 header + size-prefix variants, size prefix + BZ magic, pseudo-random) x 6 prefix variants (exact, too large, negative, i32::MAX, i32::MIN, zero); every truncation point of small valid volumes and chunks; valid volumes/chunks with 1..4 pieces of stored-byte damage, size-prefix extremes and bzip2-stream damage. Oracle: no panic, returns (watchdog), records stay inside the file. evaluations = objects exercised. Non-trivial = object with at least a volume header or record prefix (>= 6 bytes) and a fault; distinct = object digest"
+        "a case is an object stored in the simulated bucket and fetched with the real download_file / download_chunk (short object, connection cut mid-body, framed body), then handed to Chunk::new, File::{new,data,header,records,scan,Debug}, Record::{new,from_slice,data,compressed,decompress,messages,Debug} and the decompressed record again. Objects: every length 0..=64 over five alphabets (zeros, AR2 header + size-prefix variants, size prefix + BZ magic, pseudo-random, AR2 + multi-byte UTF-8 names + extreme date/time) x 6 variants (exact, too large, negative, i32::MAX, i32::MIN, zero); every truncation point of small valid volumes and chunks; valid volumes/chunks with 1..4 pieces of stored-byte damage, size-prefix extremes and bzip2-stream damage. Oracle: no panic, returns (watchdog), records stay inside the file. evaluations = objects exercised. Non-trivial = object with at least a volume header or record prefix (>= 6 bytes) and a fault; distinct = object digest"
     }
     fn assumptions(&self) -> Vec<&'static str> {
         vec![
@@ -255,8 +277,8 @@ impl Check for C06 {
         let mut truncations: Vec<usize> = Vec::new();
         let data: Vec<u8> = match p.section {
             0 => {
-                let len = (p.index / 24) as usize;
-                let alphabet = (p.index % 24) / 6;
+                let len = (p.index / 30) as usize;
+                let alphabet = (p.index % 30) / 6;
                 let variant = p.index % 6;
                 notes.push(format!("boundary len={} alphabet={} variant={}", len, alphabet, variant));
                 boundary_string(len, alphabet, variant)
@@ -299,6 +321,15 @@ impl Check for C06 {
                         notes.push(format!("size prefix at {} := {}", o, val));
                         ctx.count("fault.size_prefix");
                     }
+                }
+                // field-directed: the volume header's 32-bit date and time
+                if !as_chunk && bytes.len() >= 24 && tape.draw(6) == 5 {
+                    let date: u32 = [95_026_237u32, 95_026_200, 95_026_188, u32::MAX, 65_536, 65_535, 0, 0x7FFF_FFFF][tape.draw(8) as usize];
+                    let time: u32 = [u32::MAX, 86_400_000, 86_399_999, 0, 0x7FFF_FFFF][tape.draw(5) as usize];
+                    bytes[12..16].copy_from_slice(&date.to_be_bytes());
+                    bytes[16..20].copy_from_slice(&time.to_be_bytes());
+                    notes.push(format!("volume header date := {} time := {}", date, time));
+                    ctx.count("fault.header_date_time_extreme");
                 }
                 let k = tape.draw(4);
                 for _ in 0..k {
